@@ -14,5 +14,4 @@ func annotationOwnerHandler(owner client.Object, w *World) handler.EventHandler 
 	return ownerhandling.NewAnnotation(Scheme, constants.OwnerStrategyAnnotationKey).EnqueueRequestForOwner(owner, w.Mapper, false)
 }
 
-func buildPackageControllers(p *Process, mgr, unc *Client)                          {}
 func buildTemplateControllers(p *Process, mgr, unc *Client, dc *dynamiccache.Cache) {}
